@@ -55,6 +55,12 @@ func PreParams(i int) *keygen.LocalPreParams {
 	return &pp
 }
 
+// Fixture returns the i-th fixture key share data (a 3-of-5 wallet, Ks of 5 parties).
+func Fixture(i int) keygen.LocalPartySaveData {
+	PreParams(0)
+	return fixtures[i%FixtureCount]
+}
+
 // ---- membership -----------------------------------------------------------
 
 // OperatorKey is the (network-authenticated) public key of operator `op`.
